@@ -25,6 +25,8 @@ RULE = ("exhaustive over (derived struct, optional field whose type the model re
         "option set in {strict, tolerant}) in thorough, a stratified sample in quick; every case is a real file written by the "
         "specification-side writer; judged relationally as the property says (the dictionary with the planted reference must read "
         "exactly like the dictionary without the key) and against the Coq model; required fields must give an error naming the field; "
+        "two-level shapes (nested_cases, nested_page_cases): an optional entry (strict) or an array element (both option sets) designates an object that EXISTS and "
+        "whose own required entry dangles - expected: an error naming that entry, never an absent entry or a dropped element; "
         "non-trivial = every case; distinct by input line")
 
 _S = None
